@@ -61,6 +61,42 @@ func debugRun(src string, vars []envVar, vals map[string]*val.Val, withFns bool)
 	return d
 }
 
+// debugReuse: ONE compiled debug closure and ONE record evaluated over several environments in turn (DebugCompile
+// clears the record before each evaluation); returns the observation after each evaluation.
+func debugReuse(src string, vars []envVar, valsList []map[string]*val.Val, withFns bool) (outs []dbgOut) {
+	tl := &traceLog{}
+	protect(func() {
+		e := yae.NewExpr()
+		e.UseCompiler(closure.DebugCompile)
+		if withFns {
+			registerStdFns(e, tl)
+		}
+		cl, err := e.Compile(src, typeEnvOf(vars))
+		if err != nil {
+			return
+		}
+		rcd := debug.NewRecord()
+		for _, vals := range valsList {
+			var d dbgOut
+			tl.ev = nil
+			env := valEnvOf(vals)
+			env.Dgb = rcd
+			v, err := cl(env)
+			d.o.trace = tl.ev
+			if err != nil {
+				d.o.cls, d.o.msg = classify(err.Error()), err.Error()
+			} else {
+				d.o.cls, d.o.v = "value", v
+			}
+			d.entries = rcd.VerifEntries()
+			d.report = rcd.Render(src)
+			d.cls = "ok"
+			outs = append(outs, d)
+		}
+	})
+	return outs
+}
+
 func (d dbgOut) Sx() Sx {
 	if d.cls != "ok" {
 		return L(A(strings.SplitN(d.cls, ":", 2)[0]))
@@ -94,6 +130,20 @@ func runC19(r *Run) {
 		}
 		r.Count("prog:" + strings.SplitN(d.o.cls, "(", 2)[0])
 		r.Nontrivial(c.src)
+		// one record reused across evaluations gives what a fresh record gives
+		if d.o.cls == "value" || strings.HasPrefix(d.o.cls, "fail") {
+			alt := stdValues()
+			alt["x"], alt["b"], alt["s"] = val.Num(-4), val.False, val.Str("zz")
+			fresh := []dbgOut{d, debugRun(c.src, vars, alt, c.withFns), d}
+			re := debugReuse(c.src, vars, []map[string]*val.Val{stdValues(), alt, stdValues()}, c.withFns)
+			for k := range re {
+				if k < len(fresh) && fresh[k].cls == "ok" && string(re[k].Sx()) != string(fresh[k].Sx()) {
+					r.Violate("record-reuse-differs", what, fmt.Sprintf("evaluation #%d with a reused record: report %q, with a fresh record %q", k+1, trunc(re[k].report, 300), trunc(fresh[k].report, 300)))
+					break
+				}
+			}
+			r.Count("record-reuse histories")
+		}
 		// transparency: same outcome and host-call trace as normal evaluation
 		n := runOn("closure", c.src, vars, stdValues(), c.withFns)
 		if !obsEqual(n, d.o) {
